@@ -59,7 +59,9 @@ public:
     {
         T const value = std::generate_canonical<T, std::numeric_limits<T>::digits>(generator);
 
-        auto const iterator = std::lower_bound(weight_sums.begin(), weight_sums.end(), value);
+        // select the first bin whose cumulative weight is larger than `value`; this never selects a
+        // bin with zero weight, even if `value` is zero and the first weights vanish
+        auto const iterator = std::upper_bound(weight_sums.begin(), weight_sums.end(), value);
 
         I const result = std::distance(weight_sums.begin(), iterator);
 
